@@ -509,6 +509,14 @@ def cache_trial(ops, schedule, budget=4096):
             return lambda: w.cache.is_memoized(w.refs[key[0]], w.fwa[key].arg_hash)
         if op[0] == "forget":
             return lambda: w.cache.forget_call(w.frh(key))
+        if op[0] == "read":
+            # serving a resident result (the hot path); the entry may have been dropped by the other thread meanwhile
+            def rd():
+                try:
+                    return w.cache.read_result(m0)
+                except KeyError:
+                    return "not-resident"
+            return rd
         raise ValueError(op)
     # a resident entry to start from
     m0 = w.mfns.make_memento(w.fwa[(1, 1)], seq=1)
@@ -533,6 +541,10 @@ CACHE_OPSETS = [
     [("putv", 1, 2, 300), ("forget", 1, 1)],
     [("ismem", 1, 1), ("putv", 1, 1, 100)],
     [("putv", 1, 1, 100), ("putv", 1, 1, 5000), ("ismem", 1, 1)],
+    # a resident result is served while the same call's memento is recorded again / its value replaced / the call forgotten
+    [("putm", 1, 1), ("read", 1, 1)],
+    [("putv", 1, 1, 100), ("read", 1, 1)],
+    [("forget", 1, 1), ("read", 1, 1)],
 ]
 
 
@@ -808,6 +820,10 @@ def _main(chk, replay=None):
         nsteps = max(steps)
         scheds = schedules_single_preemption(nsteps, len(ops), stride=(2 if quick else 1))
         scheds += [random_schedule(rng, len(ops), nsteps, rng.randint(2, 5)) for _ in range(10 if quick else 200)]
+        if len(ops) == 2 and any(o[0] == "read" for o in ops):
+            # two preemptions: the first thread is stopped at p1, the second one runs p2 steps, then the first one goes on
+            lim = min(nsteps, 40)
+            scheds += [[(0, p1), (1, p2), (0, 10 ** 6), (1, 10 ** 6)] for p1 in range(1, lim + 1) for p2 in range(1, lim + 1, 1 if not quick else 2)]
         for sch in scheds:
             try:
                 fails, _ = cache_trial(ops, sch)
